@@ -135,6 +135,59 @@ Proof.
     rewrite H4, andb_true_r. apply negb_true_iff, cmem_nIn. intros H. exact (Hx (Hi _ H)).
 Qed.
 
+(* every candidate named on a ballot is a candidate of the count *)
+Lemma addall_incl l : forall acc x, In x acc -> In x (fold_left (fun acc c => if cmem c acc then acc else acc ++ [c]) l acc).
+Proof.
+  induction l as [|c l IH]; intros acc x H; simpl; [exact H|]. apply IH. destruct (cmem c acc); [exact H|apply in_or_app; left; exact H].
+Qed.
+Lemma addall_in l : forall acc x, In x l -> In x (fold_left (fun acc c => if cmem c acc then acc else acc ++ [c]) l acc).
+Proof.
+  induction l as [|c l IH]; intros acc x H; simpl; [destruct H|]. destruct H as [->|H]; [|apply IH, H].
+  apply addall_incl. destruct (cmem x acc) eqn:E; [apply cmem_In, E|apply in_or_app; right; left; reflexivity].
+Qed.
+
+Lemma all_ranked_in (votes : list (ballot * Q)) b w it x :
+  In (b, w) votes -> In it b -> In x (members it) -> In x (all_ranked_candidates votes).
+Proof.
+  intros Hv Hit Hx. unfold all_ranked_candidates.
+  set (inner := fun (i : nat) (acc : list C) =>
+     fold_left (fun acc (bw : ballot * Q) => match nth_error (fst bw) i with
+                 | Some it => fold_left (fun acc c => if cmem c acc then acc else acc ++ [c]) (members it) acc
+                 | None => acc end) votes acc).
+  assert (Hinc : forall i (vs : list (ballot * Q)) acc y, In y acc ->
+            In y (fold_left (fun acc (bw : ballot * Q) => match nth_error (fst bw) i with
+                 | Some it => fold_left (fun acc c => if cmem c acc then acc else acc ++ [c]) (members it) acc
+                 | None => acc end) vs acc)).
+  { intros i. induction vs as [|bw vs IH]; intros acc y H; simpl; [exact H|]. apply IH.
+    destruct (nth_error (fst bw) i); [apply addall_incl, H|exact H]. }
+  assert (Hin : forall i (vs : list (ballot * Q)) acc, In (b, w) vs -> nth_error b i = Some it ->
+            In x (fold_left (fun acc (bw : ballot * Q) => match nth_error (fst bw) i with
+                 | Some it => fold_left (fun acc c => if cmem c acc then acc else acc ++ [c]) (members it) acc
+                 | None => acc end) vs acc)).
+  { intros i. induction vs as [|bw vs IH]; intros acc H Hn; [destruct H|]. simpl. destruct H as [->|H]; [|apply IH; assumption].
+    apply Hinc. cbn [fst]. rewrite Hn. apply addall_in, Hx. }
+  destruct (In_nth_error b it Hit) as (i & Hi).
+  assert (Hlen : (i < length b)%nat) by (apply nth_error_Some; congruence).
+  assert (Hmax : forall (vs : list (ballot * Q)) m0,
+            (m0 <= fold_left (fun m (bw : ballot * Q) => Nat.max m (length (fst bw))) vs m0)%nat /\
+            (In (b, w) vs -> (length b <= fold_left (fun m (bw : ballot * Q) => Nat.max m (length (fst bw))) vs m0)%nat)).
+  { induction vs as [|bw vs IH]; intros m0; cbn [fold_left]; [split; [lia|intros []]|].
+    destruct (IH (Nat.max m0 (length (fst bw)))) as [H1 H2]. split; [lia|]. intros [->|H]; [cbn [fst] in *; lia|exact (H2 H)]. }
+  match goal with |- In _ (fold_left _ (seq 0 ?m) _) => set (mx := m) end.
+  assert (Hm : (length b <= mx)%nat) by (unfold mx; exact (proj2 (Hmax votes 0%nat) Hv)).
+  assert (Hseq : In i (seq 0 mx)) by (apply in_seq; lia).
+  revert Hseq. generalize (seq 0 mx). intros is Hseq.
+  assert (Houter : forall (is : list nat) acc,
+            (forall y, In y acc -> In y (fold_left (fun acc i => inner i acc) is acc)) /\
+            (In i is -> In x (fold_left (fun acc i => inner i acc) is acc))).
+  { induction is0 as [|j is0 IH]; intros acc; simpl; [split; [tauto|intros []]|].
+    destruct (IH (inner j acc)) as [H1 H2]. split.
+    - intros y Hy. apply H1. unfold inner. apply Hinc, Hy.
+    - intros [->|H]; [|exact (H2 H)]. apply H1. unfold inner. apply Hin; assumption. }
+  exact (proj2 (Houter is []) Hseq).
+Qed.
+
+
 (* ================================================================ the coalition's weight in an allocation *)
 Section PSC.
   Variable SS : list C.
@@ -1060,58 +1113,6 @@ Section PSC.
   End RUNPSC.
 
   (* ================================================================ the initial allocation *)
-  (* every candidate named on a ballot is a candidate of the count *)
-  Lemma addall_incl l : forall acc x, In x acc -> In x (fold_left (fun acc c => if cmem c acc then acc else acc ++ [c]) l acc).
-  Proof.
-    induction l as [|c l IH]; intros acc x H; simpl; [exact H|]. apply IH. destruct (cmem c acc); [exact H|apply in_or_app; left; exact H].
-  Qed.
-  Lemma addall_in l : forall acc x, In x l -> In x (fold_left (fun acc c => if cmem c acc then acc else acc ++ [c]) l acc).
-  Proof.
-    induction l as [|c l IH]; intros acc x H; simpl; [destruct H|]. destruct H as [->|H]; [|apply IH, H].
-    apply addall_incl. destruct (cmem x acc) eqn:E; [apply cmem_In, E|apply in_or_app; right; left; reflexivity].
-  Qed.
-
-  Lemma all_ranked_in (votes : list (ballot * Q)) b w it x :
-    In (b, w) votes -> In it b -> In x (members it) -> In x (all_ranked_candidates votes).
-  Proof.
-    intros Hv Hit Hx. unfold all_ranked_candidates.
-    set (inner := fun (i : nat) (acc : list C) =>
-       fold_left (fun acc (bw : ballot * Q) => match nth_error (fst bw) i with
-                   | Some it => fold_left (fun acc c => if cmem c acc then acc else acc ++ [c]) (members it) acc
-                   | None => acc end) votes acc).
-    assert (Hinc : forall i (vs : list (ballot * Q)) acc y, In y acc ->
-              In y (fold_left (fun acc (bw : ballot * Q) => match nth_error (fst bw) i with
-                   | Some it => fold_left (fun acc c => if cmem c acc then acc else acc ++ [c]) (members it) acc
-                   | None => acc end) vs acc)).
-    { intros i. induction vs as [|bw vs IH]; intros acc y H; simpl; [exact H|]. apply IH.
-      destruct (nth_error (fst bw) i); [apply addall_incl, H|exact H]. }
-    assert (Hin : forall i (vs : list (ballot * Q)) acc, In (b, w) vs -> nth_error b i = Some it ->
-              In x (fold_left (fun acc (bw : ballot * Q) => match nth_error (fst bw) i with
-                   | Some it => fold_left (fun acc c => if cmem c acc then acc else acc ++ [c]) (members it) acc
-                   | None => acc end) vs acc)).
-    { intros i. induction vs as [|bw vs IH]; intros acc H Hn; [destruct H|]. simpl. destruct H as [->|H]; [|apply IH; assumption].
-      apply Hinc. cbn [fst]. rewrite Hn. apply addall_in, Hx. }
-    destruct (In_nth_error b it Hit) as (i & Hi).
-    assert (Hlen : (i < length b)%nat) by (apply nth_error_Some; congruence).
-    assert (Hmax : forall (vs : list (ballot * Q)) m0,
-              (m0 <= fold_left (fun m (bw : ballot * Q) => Nat.max m (length (fst bw))) vs m0)%nat /\
-              (In (b, w) vs -> (length b <= fold_left (fun m (bw : ballot * Q) => Nat.max m (length (fst bw))) vs m0)%nat)).
-    { induction vs as [|bw vs IH]; intros m0; cbn [fold_left]; [split; [lia|intros []]|].
-      destruct (IH (Nat.max m0 (length (fst bw)))) as [H1 H2]. split; [lia|]. intros [->|H]; [cbn [fst] in *; lia|exact (H2 H)]. }
-    match goal with |- In _ (fold_left _ (seq 0 ?m) _) => set (mx := m) end.
-    assert (Hm : (length b <= mx)%nat) by (unfold mx; exact (proj2 (Hmax votes 0%nat) Hv)).
-    assert (Hseq : In i (seq 0 mx)) by (apply in_seq; lia).
-    revert Hseq. generalize (seq 0 mx). intros is Hseq.
-    assert (Houter : forall (is : list nat) acc,
-              (forall y, In y acc -> In y (fold_left (fun acc i => inner i acc) is acc)) /\
-              (In i is -> In x (fold_left (fun acc i => inner i acc) is acc))).
-    { induction is0 as [|j is0 IH]; intros acc; simpl; [split; [tauto|intros []]|].
-      destruct (IH (inner j acc)) as [H1 H2]. split.
-      - intros y Hy. apply H1. unfold inner. apply Hinc, Hy.
-      - intros [->|H]; [|exact (H2 H)]. apply H1. unfold inner. apply Hin; assumption. }
-    exact (proj2 (Houter is []) Hseq).
-  Qed.
-
   Lemma cwa_move_nonsolid a tg b w : solid_b SS b = false -> cwa (move_ballot a tg b w) == cwa a.
   Proof.
     intros Hs. assert (H0 : forall x, sw b x = 0) by (intros x; unfold sw; rewrite Hs; reflexivity).
@@ -1193,3 +1194,110 @@ Section PSC.
     repeat split; try assumption. rewrite S4, D4, B4. ring.
   Qed.
 End PSC.
+
+(* ================================================================ the theorem *)
+Definition vsum (votes : list (ballot * Q)) : Q := fold_right (fun bw acc => snd bw + acc) 0 votes.
+
+Lemma total_vsum votes : Qred (fold_left Qplus (map snd votes) 0) == vsum votes.
+Proof.
+  eapply Qeq_trans; [apply Qred_correct|]. rewrite fold_left_Qplus.
+  induction votes as [|[b w] vs IH]; simpl; [ring|]. simpl in IH. rewrite <- IH. ring.
+Qed.
+
+Lemma cast_le_vsum votes : (forall b w, In (b, w) votes -> 0 <= w) -> cast votes <= vsum votes.
+Proof.
+  induction votes as [|[b w] vs IH]; intros Hw; simpl; [lra|].
+  assert (H0 : 0 <= w) by (apply (Hw b w); left; reflexivity).
+  assert (IH' : cast vs <= vsum vs) by (apply IH; intros b0 w0 H; apply (Hw b0 w0); right; exact H).
+  unfold cast, vsum in *. cbn [fold_right fst snd]. destruct b; lra.
+Qed.
+
+Lemma cw_le_vsum SS votes : (forall b w, In (b, w) votes -> 0 <= w) -> coalition_weight SS votes <= vsum votes.
+Proof.
+  induction votes as [|[b w] vs IH]; intros Hw; simpl; [lra|].
+  assert (H0 : 0 <= w) by (apply (Hw b w); left; reflexivity).
+  assert (IH' : coalition_weight SS vs <= vsum vs) by (apply IH; intros b0 w0 H; apply (Hw b0 w0); right; exact H).
+  unfold coalition_weight, vsum in *. cbn [fold_right fst snd]. destruct (solid_b SS b); lra.
+Qed.
+
+Lemma cw_pos_solid SS votes : 0 < coalition_weight SS votes -> exists b w, In (b, w) votes /\ solid_b SS b = true.
+Proof.
+  induction votes as [|[b w] vs IH]; simpl; [intros H; lra|]. destruct (solid_b SS b) eqn:E.
+  - intros _. exists b, w. split; [left; reflexivity|exact E].
+  - intros H. destruct IH as (b0 & w0 & H1 & H2); [lra|]. exists b0, w0. split; [right; exact H1|exact H2].
+Qed.
+
+Theorem psc_main (cf : cfg) (qf : Q -> Z -> Q) (votes : list (ballot * Q)) (n : Z) (caps : list (C * Z)) (SS : list C) (k : nat) :
+  c_accept_equal cf = true -> c_step cf = (-1)%Z -> c_quota cf = Some qf ->
+  (forall c, In c (all_ranked_candidates votes) -> dget caps c = Some 1%Z) ->
+  NoDup SS -> SS <> [] ->
+  (forall b w, In (b, w) votes -> 0 <= w) ->
+  let total := Qred (fold_left Qplus (map snd votes) 0) in
+  let q := qf total n in
+  0 < q -> total < inject_Z (n + 1) * q ->
+  let t := stv cf votes n [] caps in
+  t_stop t = None ->
+  inject_Z (Z.of_nat k) * q <= coalition_weight SS votes ->
+  (Nat.min k (length SS) <= length (filter (fun c => cmem c SS) (map fst (t_seats t))))%nat.
+Proof.
+  intros Hae Hstep Hqf Hcaps Hnd Hne Hw total q Hq Hdroop t Hstop Hk.
+  destruct k as [|k']; [simpl; lia|].
+  pose proof (total_vsum votes) as Htv. fold total in Htv.
+  pose proof (cw_le_vsum SS votes Hw) as Hcv.
+  pose proof (cast_le_vsum votes Hw) as Hcast.
+  assert (Hkq : q <= inject_Z (Z.of_nat (S k')) * q).
+  { assert (H1 : 1 <= inject_Z (Z.of_nat (S k'))) by (change 1 with (inject_Z 1); rewrite <- Zle_Qle; lia).
+    assert (H2 : 1 * q <= inject_Z (Z.of_nat (S k')) * q) by (apply Qmult_le_compat_r; [exact H1|lra]). lra. }
+  assert (Htot : Qeq_bool total 0 = false).
+  { apply not_true_iff_false. intros H. apply Qeq_bool_iff in H. lra. }
+  assert (Hn0 : (n =? 0)%Z = false).
+  { apply Z.eqb_neq. intros ->. change (inject_Z (0 + 1)) with 1 in Hdroop. lra. }
+  destruct (initial_psc SS votes (keys_some (initial_allocation votes)) Hne Hw) as (P1 & P2 & P3 & P4).
+  destruct (initial_allocation_conserves votes) as [C1 C2].
+  assert (Hinv : Inv SS qf n total caps (S k') (initial_allocation votes) []).
+  { constructor.
+    - exact C1.
+    - exact P1.
+    - intros c Hc. rewrite P3 in Hc. exact (Hcaps c Hc).
+    - intros c _ [].
+    - intros c. unfold dget_or. simpl. lia.
+    - change (zsum (map snd (@nil (C * Z)))) with 0%Z. change (inject_Z 0) with 0. fold q. rewrite C2. lra.
+    - exact P2.
+    - intros _. change (cnt SS (map fst (@nil (C * Z)))) with 0%nat. change (inject_Z (Z.of_nat 0)) with 0. fold q. rewrite P4. lra.
+    - change (cnt SS (map fst (@nil (C * Z)))) with 0%nat. rewrite P3.
+      destruct (cw_pos_solid SS votes) as (b & w & Hb1 & Hb2); [lra|].
+      destruct (solid_b_shape SS b Hb2) as (top & rest & -> & _ & Htop).
+      assert (Hlen : (length SS <= cnt SS (all_ranked_candidates votes))%nat).
+      { unfold cnt. apply NoDup_incl_length; [exact Hnd|]. intros x Hx. apply filter_In. split; [|apply cmem_In, Hx].
+        apply (all_ranked_in votes (map IP top ++ rest) w (IP x) x Hb1); [|left; reflexivity].
+        apply in_or_app. left. apply in_map, Htop, Hx. }
+      lia. }
+  unfold t, stv. fold total.
+  apply (run_psc SS cf Hae Hstep qf Hqf n total Htot Hn0 Hq caps (S k') _ _ _ _ Hinv Hdroop).
+  exact Hstop.
+Qed.
+
+(* ---- the quotas of the library satisfy the hypotheses *)
+Lemma droop_ok (v : Q) (n : Z) : 0 <= v -> (0 <= n)%Z -> 0 < droop v n /\ v < inject_Z (n + 1) * droop v n.
+Proof.
+  intros Hv Hn. unfold droop, qfloor.
+  assert (Hd : 0 < inject_Z (n + 1)) by (change 0 with (inject_Z 0); rewrite <- Zlt_Qlt; lia).
+  assert (H0 : 0 <= v / inject_Z (n + 1)) by (apply Qle_shift_div_l; [exact Hd|lra]).
+  assert (H2 : v / inject_Z (n + 1) * inject_Z (n + 1) == v) by (field; lra).
+  set (d := v / inject_Z (n + 1)) in *.
+  pose proof (Qlt_floor d) as F2. rewrite inject_Z_plus in F2. change (inject_Z 1) with 1 in F2.
+  split; [lra|].
+  set (f := inject_Z (Qfloor d) + 1) in *.
+  assert (H1 : d * inject_Z (n + 1) < f * inject_Z (n + 1)) by (apply Qmult_lt_compat_r; assumption).
+  rewrite H2 in H1. rewrite Qmult_comm. exact H1.
+Qed.
+
+Lemma hare_ok (v : Q) (n : Z) : 0 < v -> (1 <= n)%Z -> 0 < hare v n /\ v < inject_Z (n + 1) * hare v n.
+Proof.
+  intros Hv Hn. unfold hare.
+  assert (Hd : 0 < inject_Z n) by (change 0 with (inject_Z 0); rewrite <- Zlt_Qlt; lia).
+  assert (H0 : 0 < v / inject_Z n) by (apply Qlt_shift_div_l; [exact Hd|lra]).
+  split; [exact H0|]. rewrite inject_Z_plus. change (inject_Z 1) with 1.
+  assert (H2 : (inject_Z n + 1) * (v / inject_Z n) == v + v / inject_Z n) by (field; lra).
+  rewrite H2. lra.
+Qed.
